@@ -200,8 +200,10 @@ def write_evidence(prop, tier, lean, cov, assumptions, wall, violations):
     coverage.update(cov)
     ev = dict(property_id=prop, tier=tier, seed=seed(), level="proof", coverage=coverage,
               assumptions=assumptions, wall_s=round(wall, 2), violations=violations)
-    os.makedirs(os.path.join(VERIF, "evidence"), exist_ok=True)
-    with open(os.path.join(VERIF, "evidence", prop + ".json"), "w") as f:
+    # evidence under /verif/evidence only describes /repo itself; runs against a scratch copy keep theirs with the build
+    evdir = os.path.join(VERIF, "evidence") if os.path.realpath(REPO) == "/repo" else os.path.join(BUILD, "evidence")
+    os.makedirs(evdir, exist_ok=True)
+    with open(os.path.join(evdir, prop + ".json"), "w") as f:
         json.dump(ev, f, indent=1, default=str)
 
 
